@@ -148,6 +148,21 @@ def rule_I1(ctx):
             det = "the handler does not re-position the table stream: every following entry is read at the wrong offset"
             if ok:
                 saved = [a for a in ast.walk(loop) if isinstance(a, ast.Assign) and norm(a.value) == "stream.tell()" and a.lineno < ps[0].lineno]
+                if len(saved) > 1:
+                    # several positions are remembered (an end-of-table peek restores its own): the entry start is the last one taken
+                    # before the parse, with nothing moving the stream in between
+                    last = max(saved, key=lambda a: a.lineno)
+                    blk = getattr(last, "_parent", None)
+                    body = next((b for b in (getattr(blk, "body", []), getattr(blk, "orelse", []), getattr(blk, "finalbody", [])) if last in b), [])
+                    after = body[body.index(last) + 1:] if last in body else []
+                    upto = []
+                    for st_ in after:
+                        if any(n is ps[0] for n in ast.walk(st_)):
+                            upto.append(None)
+                            break
+                        upto.append(st_)
+                    quiet = bool(upto) and upto[-1] is None and not any(isinstance(c, ast.Call) and norm(c.func).startswith("stream.") for st_ in upto[:-1] for c in ast.walk(st_))
+                    saved = [last] if quiet else saved
                 # address = saved + entry size
                 ev = Evaluator()
                 t = ev.ev(seeks[0].args[0])
